@@ -24,7 +24,7 @@ func init() { register("C12", "model_checking", c12) }
 type arena struct {
 	bufs  [][]byte // full backing arrays
 	saved [][]byte
-	fill  int // 0: patterned data, 1: all 0x00, 2: all 0xFF (carries / borrows, "empty" looking fields)
+	fill  int // 0: patterned data, 1: all 0x00, 2: all 0xFF, 3: text with separators, 4: blanks and hyphens, 5: multi-byte UTF-8
 }
 
 const canary = 0xC9
@@ -53,6 +53,12 @@ func (a *arena) slice(n, shape int, seed byte) []byte {
 			full[pre+i] = 0x00
 		case 2:
 			full[pre+i] = 0xFF
+		case 3:
+			full[pre+i] = "AB-CD EF_GH.IJ\tKL"[i%17] // text with separators, blanks and punctuation
+		case 4:
+			full[pre+i] = " \t-"[i%3]
+		case 5:
+			full[pre+i] = "a\u00e9\u20acb\U0001F600"[i%11]
 		default:
 			full[pre+i] = seed + byte(i*3)
 		}
@@ -107,9 +113,9 @@ func newC12Env() *c12Env {
 // run executes one operation with arguments in the requested memory shape, then checks
 // every byte the caller owns.
 func (e *c12Env) run(c c12Case) (obs, bad string) {
-	a := &arena{fill: (c.Sub / 2) % 3}
+	a := &arena{fill: (c.Sub / 2) % 6}
 	sec := hopSec
-	full := shape{Text: "OCRA-1:HOTP-SHA1-6:C-QN08-PSHA1-S-T1M", Hash: c.Sub % 3, Digits: 6 + c.Sub%5, C: true, Q: true, P: true, S: true, T: true, QF: 1, PH: 1, TS: 60}
+	full := shape{Text: "OCRA-1:HOTP-SHA1-6:C-QN08-PSHA1-S-T1M", Hash: c.Sub % 3, Digits: 6 + c.Sub%5, C: true, Q: true, P: true, S: true, T: true, QF: 1 + (c.Sub/3)%6, PH: 1, TS: 60}
 	in := otp.OCRAInput{Counter: a.slice(c.Lens[0], c.Shape, 1), Challenge: a.slice(c.Lens[1], c.Shape, 2), Password: a.slice(c.Lens[2], c.Shape, 3), SessionInfo: a.slice(c.Lens[3], c.Shape, 4), Timestamp: a.slice(c.Lens[4], c.Shape, 5)}
 	inCopy := otp.OCRAInput{Counter: clone(in.Counter), Challenge: clone(in.Challenge), Password: clone(in.Password), SessionInfo: clone(in.SessionInfo), Timestamp: clone(in.Timestamp)}
 	var frame, frameSaved []byte
